@@ -63,6 +63,14 @@ func Harness_C15_generate() {
 	verif_Assert("C15.gen.first", err == nil)
 	used, _ := g2.IsUsed(taken)
 	verif_Assert("C15.gen.marked_everywhere", used)
+	// time passes - less than the marker's lifetime, more than any cache lifetime of a tiered store
+	wait := []time.Duration{0, 2 * time.Hour, 25 * time.Hour, 29 * 24 * time.Hour}[verif_Choose(4)]
+	verif_ClockSet(int64(1)<<60 + int64(wait))
+	if wait > 0 {
+		used, _ = g2.IsUsed(taken)
+		verif_Assert("C15.gen.marker_lives_30_days", used)
+		verif_Cover("C15.gen.time_passed")
+	}
 	// the other node generates: it must never return the taken id - also when its first claim
 	// attempt hits a transient store error
 	if st2, ok := sts[1].(*c15Store); ok && verif_Bool() {
